@@ -174,6 +174,11 @@ def _loop_pieces(prog, q):
     return out
 
 
+def _loop_shape(prog, q):
+    """Labels of the loops of `q` that are genuine accumulations (position, number of carried names)."""
+    return [l for l, _t in _loop_pieces(prog, q)]
+
+
 def _loop_name_map(prog, ref_q, actual_q):
     """{(ref lid, ref name): (actual lid, actual name)} pairing loops and carried names by position."""
     m = {}
@@ -215,28 +220,27 @@ def compare(ctx: Ctx, actual_q: str, ref_name: str, what: str, *, decorated=Fals
     if fa.unsupported:
         ctx.undecided(key, f"{actual_q} uses a statement outside the vocabulary ({fa.unsupported[0][0]})", where)
         return
-    pa = [("result", fa.ret), *_loop_pieces(prog, actual_q)]
-    pr = [("result", fr.ret), *_loop_pieces(prog, ref_q)]
+    pa = [("result", fa.ret)]
+    pr = [("result", fr.ret)]
     ctx.count("kernels")
-    if [l for l, _ in pa] != [l for l, _ in pr]:
-        ctx.undecided(key, f"{what}: loop structure / loop-carried names differ from the reference "
-                      f"({[l for l, _ in pa][:6]} vs {[l for l, _ in pr][:6]})", where)
-        return
     bad = None
     vocab = True
+    memo: dict = {}
+
+    def lc(x):
+        return loop_content(prog, comprehend(prog, prog.expand(x)), 0, memo)
+
+    def from_ref(x):
+        return _retarget(prog, _rename(lc(x), ref_q, actual_q, nr_names, na_names), ia.module)
+
     for (label, ta), (_l, tr) in zip(pa, pr, strict=True):
-        ra = prog.expand(ta)
-        rr = prog.expand(_relid(_rename(tr, ref_q, actual_q, nr_names, na_names), ref_q, actual_q))
-        rr = _retarget(prog, rr, ia.module)
+        ra, rr = lc(ta), from_ref(tr)
         a, r = norm(ra), norm(rr)
         vocab = vocab and in_vocab(ra)
         if a != r and bad is None:
             bad = (label, first_difference(a, r, label), ra, rr)
-    ga = [(tuple(norm(c) for c in conds if c[0] != "in-loop"), _exc_class(e)) for conds, e, _n in fa.raises]
-    gr = [(tuple(norm(_relid(_rename(c, ref_q, actual_q, nr_names, na_names), ref_q, actual_q)) for c in conds if c[0] != "in-loop"), _exc_class(e))
-          for conds, e, _n in fr.raises]
-    ga = [(tuple(norm(prog.expand(c)) for c in cs), e) for cs, e in ga]
-    gr = [(tuple(norm(_retarget(prog, prog.expand(c), ia.module)) for c in cs), e) for cs, e in gr]
+    ga = [(tuple(norm(lc(c)) for c in conds if c[0] != "in-loop"), _exc_class(e)) for conds, e, _n in fa.raises]
+    gr = [(tuple(norm(from_ref(c)) for c in conds if c[0] != "in-loop"), _exc_class(e)) for conds, e, _n in fr.raises]
     if bad is None and ga != gr:
         d = next((f"guard {i + 1}: {first_difference(x, y, 'condition')}" for i, (x, y) in enumerate(zip(ga, gr, strict=False)) if x != y),
                  f"{len(ga)} raise sites vs {len(gr)} in the reference")
@@ -244,6 +248,9 @@ def compare(ctx: Ctx, actual_q: str, ref_name: str, what: str, *, decorated=Fals
     ra = fa.ret
     if bad is None:
         ctx.ob(key, True, where, f"{what}: normal form equals the reference form", lhs=ra, rhs="reference " + ref_name)
+    elif _loop_shape(prog, actual_q) != _loop_shape(prog, ref_q):
+        ctx.undecided(key, f"{what}: differs from the reference form and its loops were restructured "
+                      f"({_loop_shape(prog, actual_q)[:6]} vs {_loop_shape(prog, ref_q)[:6]}): not decided by comparison", where)
     elif vocab:
         ctx.ob(key, False, where, f"{what}: {bad[0]} differs from the reference form at {bad[1]}", lhs=bad[2], rhs=bad[3])
     else:
@@ -624,6 +631,77 @@ def _subst_params(t, m):
     return tuple(_subst_params(x, m) if isinstance(x, tuple) else x for x in t)
 
 
+# ---------------------------------------------------------------------------------------
+# loops by content: a loop result is (iterable, initial values, updates) of the names it depends on
+# ---------------------------------------------------------------------------------------
+
+
+def loop_content(prog, t, depth=0, memo=None, stack=()):
+    """('loopout', lid, name) -> ('fold', iterable, ((init, update), ...)) over the dependency closure of `name`.
+
+    Self references become positional (`('carried', '#L<depth>', k)`, `('loopvar', '#L<depth>', path)`), so the
+    form does not depend on where the loop stands, on the names of its variables, on unrelated variables that
+    the same loop also updates (loop fission/fusion) or on the function the loop was moved to.
+    Loops that only build a list/dict are turned into comprehensions first (`comprehend`)."""
+    memo = memo if memo is not None else {}
+    if not isinstance(t, tuple) or depth > 6:
+        return t
+    if is_term(t) and t[0] in ("loopout", "carried", "loopvar") and len(t) == 3 and isinstance(t[1], str) and t[1] in prog.loops:
+        if t[1] in stack:
+            return t  # reference to an enclosing loop under construction: made positional by its builder
+        if t[0] == "loopout":
+            r = _fold_of(prog, t[1], t[2], depth, memo, stack)
+            return r if r is not None else t
+        if t[0] == "carried":
+            r = _fold_of(prog, t[1], t[2], depth, memo, stack)
+            return ("loopstate", r) if r is not None else t
+        lp = prog.loops[t[1]]
+        path = prog.loopvar_paths.get((t[1], t[2]), t[2])
+        return ("loopvar", "#it", path, loop_content(prog, comprehend(prog, lp.iter), depth + 1, memo, stack))
+    return tuple(loop_content(prog, x, depth, memo, stack) if isinstance(x, tuple) else x for x in t)
+
+
+def _fold_of(prog, lid, name, depth, memo, stack):
+    key = (lid, name, depth, stack)
+    if key in memo:
+        return memo[key]
+    lp = prog.loops[lid]
+    if name not in lp.next:
+        return None
+    tag = f"#L{depth}"
+    inner = (*stack, lid)
+
+    def deep(x):
+        return loop_content(prog, comprehend(prog, x), depth + 1, memo, inner)
+
+    order, nexts, i = [name], {}, 0
+    while i < len(order):
+        d = order[i]
+        i += 1
+        if d not in lp.next:
+            memo[key] = None
+            return None
+        nexts[d] = deep(lp.next[d])
+        for x in walk(nexts[d]):
+            if x[0] == "carried" and len(x) == 3 and x[1] == lid and x[2] not in order:
+                order.append(x[2])
+    idx = {d: k for k, d in enumerate(order)}
+
+    def sub(x):
+        if not isinstance(x, tuple):
+            return x
+        if is_term(x) and x[0] == "carried" and len(x) == 3 and x[1] == lid and x[2] in idx:
+            return ("carried", tag, idx[x[2]])
+        if is_term(x) and x[0] == "loopvar" and len(x) == 3 and x[1] == lid:
+            return ("loopvar", tag, prog.loopvar_paths.get((lid, x[2]), x[2]))
+        return tuple(sub(y) if isinstance(y, tuple) else y for y in x)
+
+    parts = tuple((sub(deep(lp.init.get(d, ("undef",)))), sub(nexts[d])) for d in order)
+    r = ("fold", sub(loop_content(prog, comprehend(prog, lp.iter), depth + 1, memo, stack)), parts)
+    memo[key] = r
+    return r
+
+
 def fuse_comps(t):
     """for (a, b) in (f(x) for x in X)  ==  for x in X with a := f(x)[0], b := f(x)[1]."""
     if not isinstance(t, tuple):
@@ -778,11 +856,13 @@ def compare_factory(ctx: Ctx, actual_q: str, ref_name: str, what: str, *, soft: 
                 return (t[0], f"{qmap[q]}:{rest}", *t[2:])
         return tuple(canon(x, idx, is_ref) if isinstance(x, tuple) else x for x in t)
 
+    lc_memo: dict = {}
+
     def prep(t, idx, is_ref):
         # helpers that have a reviewed form of their own stay opaque (they are compared separately); any other
         # helper (e.g. one that a refactoring extracted) is inlined
         t = prog.expand(t, skip=covered_functions(prog))
-        t = renumber_bv(fuse_comps(comprehend(prog, t)))
+        t = renumber_bv(fuse_comps(loop_content(prog, comprehend(prog, t), 0, lc_memo)))
         t = reify_closures(prog, t)
         t = strip_messages(canon(t, idx, is_ref))
         return resort_caps(_retarget(prog, t, ia.module) if is_ref else t)
@@ -799,7 +879,7 @@ def compare_factory(ctx: Ctx, actual_q: str, ref_name: str, what: str, *, soft: 
         return out
 
     def pieces(frame, q, closures, tag, info):
-        out = [("factory result", frame.ret), *[(f"factory {l}", t) for l, t in _loop_pieces(prog, q)]]
+        out = [("factory result", frame.ret)]  # loops are part of the result (loop_content)
         out += [(f"factory {l}", t) for l, t in side_effects(frame, q)]
         if info.parent is None and info.cls is None and info.node.decorator_list:
             dec = prog.module_frame(info.module).env.get(info.node.name)
@@ -810,7 +890,6 @@ def compare_factory(ctx: Ctx, actual_q: str, ref_name: str, what: str, *, soft: 
             cf = prog.closure_frame(c)
             cq = prog.closures[c][0].qualname
             out.append((f"closure {i + 1} result", cf.ret))
-            out += [(f"closure {i + 1} {l}", t) for l, t in _loop_pieces(prog, cq)]
             out += [(f"closure {i + 1} {l}", t) for l, t in side_effects(cf, cq)]
             guards += [(conds, e) for conds, e, _n in cf.raises]
         return out, guards
@@ -849,11 +928,15 @@ def compare_factory(ctx: Ctx, actual_q: str, ref_name: str, what: str, *, soft: 
             d = next((f"guard {i + 1}: {first_difference(x, y, 'condition')}" for i, (x, y) in enumerate(zip(na_g, nr_g, strict=False)) if x != y),
                      f"{len(na_g)} raise sites vs {len(nr_g)} in the reference")
             bad = ("guards", d, str(na_g)[:300], str(nr_g)[:300])
+    shape_a = [_loop_shape(prog, actual_q)] + [_loop_shape(prog, prog.closures[c][0].qualname) for c in ca]
+    shape_r = [_loop_shape(prog, ref_q)] + [_loop_shape(prog, prog.closures[c][0].qualname) for c in cr]
     if bad is None:
         ctx.ob(key, True, where, f"{what}: function, closures, effects and guards equal the reference form",
                lhs=fa.ret, rhs="reference " + ref_name)
     elif not vocab:
         ctx.undecided(key, f"{what}: {bad[0]} differs ({bad[1]}) but uses constructs outside the vocabulary", where)
+    elif shape_a != shape_r:
+        ctx.undecided(key, f"{what}: differs from the reference form and its loops were restructured: not decided by comparison", where)
     elif soft and not _local_difference(total_sites, total_size):
         ctx.undecided(key, f"{what}: the function was restructured ({total_sites} differing sites, first: {bad[0]} at {bad[1]}); "
                       "its dataflow obligations decide the property, this comparison does not", where)
